@@ -1,9 +1,16 @@
 (* C03 - Undoing a move restores the position exactly.
    Statements only; proofs live in Proofs/BoardInv.v and Proofs/UndoMove.v.
 
-   [make] / [undo] / [make_null] / [undo_null] (Model/Board.v) are line-by-line models of
-   Board.MakeMove / UndoMove / MakeNullMove / UndoNullMove, tied to the Go code by the streams mk and
-   mkseq on every run.  [Rep] is the shared representation invariant (Spec/Rep.v), [applicable] the
+   [make_l l] / [undo_l l] / [make_null_l l] / [undo_null_l l] (Model/Board.v) are line-by-line models
+   of Board.MakeMove / UndoMove / MakeNullMove / UndoNullMove for a reverse token with layout l
+   (Model/TokLayout.v: the four masks and shifts and the width of type Reverse); the theorems hold
+   for EVERY layout with [layout_ok l = true] (masks are runs of ones at their shifts, halfmove field
+   >= 16 bits, castling delta >= 4, en-passant delta >= 6, captured piece >= 3, inside the word,
+   pairwise disjoint).  [make] / [undo] / [make_null] / [undo_null] are these functions at
+   [gen_layout], the layout regenerated from board.go on every run; C03_layout_ok re-checks on every
+   run that it is sound, so a harmless re-packing of the token re-proves silently and a field that is
+   too narrow or overlaps another one fails here.  The models are tied to the Go code by the streams
+   mk and mkseq (raw token value included) on every run.  [Rep] is the shared representation invariant (Spec/Rep.v), [applicable] the
    explicit condition of Spec/Applicable.v (weaker than IsPseudoLegal and than membership in the
    generated moves of a valid position; it includes the moves that leave the own king attacked).
    All theorems hold for an ARBITRARY Zobrist table z.  The equalities are equalities of the whole
@@ -11,19 +18,34 @@
    side to move, en-passant square, castling rights, halfmove clock. *)
 From Coq Require Import NArith ZArith List Bool.
 From Chess3 Require Import Base.Bits Model.Types Model.BoardDef Model.Board Model.Movegen Gen.Zobrist Spec.Rep
-  Spec.Applicable Proofs.BoardInv Proofs.UndoMove Proofs.PseudoApplicable Proofs.BoardExamples Proofs.Statements.
+  Spec.Applicable Proofs.BoardInv Proofs.UndoMove Proofs.PseudoApplicable Proofs.BoardExamples Proofs.Statements Proofs.LayoutNow.
 Import ListNotations.
 Open Scope N_scope.
 
-Theorem C03_move : forall z b m, Rep b -> applicable b m = true ->
-  let '(b', t) := make z b m in undo z b' m t = b.
+Theorem C03_layout_ok : layout_ok gen_layout = true.
+Proof. exact generated_layout_ok. Qed.
+Print Assumptions C03_layout_ok.
+
+Theorem C03_move : forall l z b m, layout_ok l = true -> Rep b -> applicable b m = true ->
+  let '(b', t) := make_l l z b m in undo_l l z b' m t = b.
 Proof. exact C03_move_l. Qed.
 Print Assumptions C03_move.
 
-Theorem C03_null : forall z b, Rep b ->
-  let '(b', t) := make_null z b in undo_null b' t = b.
+Theorem C03_null : forall l z b, layout_ok l = true -> Rep b ->
+  let '(b', t) := make_null_l l z b in undo_null_l l b' t = b.
 Proof. exact C03_null_l. Qed.
 Print Assumptions C03_null.
+
+(* the engine as it is now (the functions every other property uses) *)
+Theorem C03_move_now : forall z b m, Rep b -> applicable b m = true ->
+  let '(b', t) := make z b m in undo z b' m t = b.
+Proof. exact C03_move_now_l. Qed.
+Print Assumptions C03_move_now.
+
+Theorem C03_null_now : forall z b, Rep b ->
+  let '(b', t) := make_null z b in undo_null b' t = b.
+Proof. exact C03_null_now_l. Qed.
+Print Assumptions C03_null_now.
 
 (* every move accepted by IsPseudoLegal (legal or not) is covered, on boards whose en-passant target is
    empty with no own piece behind it and whose castling rights have the rook on its corner - both
@@ -33,9 +55,9 @@ Theorem C03_pseudo_legal_applicable : forall b m,
 Proof. exact pseudo_legal_applicable. Qed.
 Print Assumptions C03_pseudo_legal_applicable.
 
-Theorem C03_pseudo_legal_move : forall z b m,
+Theorem C03_pseudo_legal_move : forall l z b m, layout_ok l = true ->
   Rep b -> ep_inv b = true -> castle_inv b = true -> is_pseudo_legal b m = true ->
-  let '(b', t) := make z b m in undo z b' m t = b.
+  let '(b', t) := make_l l z b m in undo_l l z b' m t = b.
 Proof. exact C03_pseudo_legal_move_l. Qed.
 Print Assumptions C03_pseudo_legal_move.
 
@@ -43,34 +65,34 @@ Print Assumptions C03_pseudo_legal_move.
 Definition C03_generated_moves_statement : Prop := gen_applicable_statement.
 
 (* any sequence of moves and null moves, then the reverse sequence of undos *)
-Theorem C03_nested : forall z ops b, Rep b -> applicable_all z b ops ->
-  let '(b', st) := make_all z b ops [] in undo_all z b' st = b.
+Theorem C03_nested : forall l z ops b, layout_ok l = true -> Rep b -> applicable_all l z b ops ->
+  let '(b', st) := make_all l z b ops [] in undo_all l z b' st = b.
 Proof. exact C03_nested_l. Qed.
 Print Assumptions C03_nested.
 
 (* the search's depth-first walk: makes, null moves and undos of the latest operation interleaved in
    any way, followed by undoing whatever is still on the stack *)
-Theorem C03_walk : forall z evs b, Rep b -> walk_ok z b [] evs ->
-  let '(b', st) := walk z b [] evs in undo_all z b' st = b.
+Theorem C03_walk : forall l z evs b, layout_ok l = true -> Rep b -> walk_ok l z b [] evs ->
+  let '(b', st) := walk l z b [] evs in undo_all l z b' st = b.
 Proof. exact C03_walk_l. Qed.
 Print Assumptions C03_walk.
 
 (* the invariant is kept (so that the theorems apply again after every make); the 64-bit bound on
    the hashes in Rep needs 64-bit table entries *)
-Theorem C03_make_Rep : forall z b m, zob_w64 z -> Rep b -> applicable b m = true -> Rep (fst (make z b m)).
+Theorem C03_make_Rep : forall l z b m, zob_w64 z -> Rep b -> applicable b m = true -> Rep (fst (make_l l z b m)).
 Proof. exact make_Rep. Qed.
 Print Assumptions C03_make_Rep.
 
-Theorem C03_make_null_Rep : forall z b, zob_w64 z -> Rep b -> Rep (fst (make_null z b)).
+Theorem C03_make_null_Rep : forall l z b, zob_w64 z -> Rep b -> Rep (fst (make_null_l l z b)).
 Proof. exact make_null_Rep. Qed.
 Print Assumptions C03_make_null_Rep.
 
 (* the reverse token: every field is read back unchanged whatever the other fields hold, for all
    tokens (proved for arbitrary N, in particular all 64-bit values) *)
-Theorem C03_token_fields : forall r fc c e p,
+Theorem C03_token_fields : forall l r fc c e p, layout_ok l = true ->
   (-32768 <= fc < 32768)%Z -> c < 16 -> e < 64 -> p < 8 ->
-  let t := tok_set_ep (tok_set_capture (tok_set_castling (tok_set_fifty r fc) c) p) e in
-  tok_fifty t = fc /\ tok_castling t = c /\ tok_capture t = p /\ tok_ep t = e.
+  let t := tok_set_ep l (tok_set_capture l (tok_set_castling l (tok_set_fifty l r fc) c) p) e in
+  tok_fifty l t = fc /\ tok_castling l t = c /\ tok_capture l t = p /\ tok_ep l t = e.
 Proof. exact C03_token_fields_l. Qed.
 Print Assumptions C03_token_fields.
 
@@ -86,7 +108,7 @@ Proof. vm_compute. repeat split; reflexivity. Qed.
 
 Example C03_ex_en_passant :
   Rep ex_ep /\ applicable ex_ep d5c6 = true /\ capture_sq ex_ep d5c6 = 34 /\
-  piece_at (fst (make zob_real ex_ep d5c6)) 34 = NoPiece /\ tok_capture (snd (make zob_real ex_ep d5c6)) = Pawn.
+  piece_at (fst (make zob_real ex_ep d5c6)) 34 = NoPiece /\ tok_capture gen_layout (snd (make zob_real ex_ep d5c6)) = Pawn.
 Proof. vm_compute. repeat split; reflexivity. Qed.
 
 Example C03_ex_promotion_capture :
@@ -100,14 +122,8 @@ Proof. vm_compute. repeat split; reflexivity. Qed.
 
 Example C03_ex_nested :
   let ops := [OpMove e2e4; OpMove e7e5; OpNull; OpMove b8c6; OpMove g1f3] in
-  Rep ex_start /\ applicable_all zob_real ex_start ops /\ length (hashes (run zob_real ex_start ops)) = 6%nat.
+  Rep ex_start /\ applicable_all gen_layout zob_real ex_start ops /\ length (hashes (run gen_layout zob_real ex_start ops)) = 6%nat.
 Proof. vm_compute. repeat split; reflexivity. Qed.
 
 Example C03_ex_zob_real : zob_w64 zob_real.
 Proof. exact zob_real_w64. Qed.
-
-(* the field layout of the reverse token in board.go is the one the model (and the proofs) use *)
-Theorem C03_token_layout :
-  token_layout = [fiftyCntMask; fiftyCntShift; castlingChangeMask; castlingChangeShift;
-                  epChangeMask; epChangeShift; captureMask; captureShift].
-Proof. exact token_layout_ok. Qed.
